@@ -88,6 +88,12 @@ void dss::clear_evaluators()
 
 void dss::move_to_validation()
 {
+  // An empty validation set could be without metadata: the examples it
+  // receives are described by the schema of the training set (a classifier
+  // built on the validation set needs `classes()`).
+  if (validation_.empty() && !training_.empty())
+    validation_.clone_schema(training_);
+
   std::move(training_.begin(), training_.end(),
             std::back_inserter(validation_));
   training_.clear();
